@@ -111,3 +111,13 @@ def _gh_random(case, res):
     return (case.get('cls') == 'PID_GH' and msg.startswith('permuting the sources')
             and str(res.site).endswith('optimiser-random')
             and (res.detail or {}).get('gh_repeat_spread', 0.0) > 2e-2)
+
+
+@predicate('fdiv-support-mismatch')
+def _fdiv_support(case, res):
+    """f_divergence sums q f(p/q) over the FIRST distribution's outcomes only and drops 0 * f(inf) with nansum: the terms
+    q(x) f(0) for outcomes outside the first support and p(x) lim f(t)/t for outcomes outside the second are lost. The
+    harness marks exactly that input class (supports differ in a way that makes one of those terms non-zero)."""
+    return (str(res.site).endswith('f_divergence.support-mismatch')
+            and (res.detail or {}).get('fdiv_support_mismatch') is True
+            and (res.oracle_fail or '').startswith('f_divergence'))
